@@ -487,7 +487,8 @@ OpenReturn(m0, e) ==
        ELSE Viol(m, IF m.rejSeen THEN "C06" ELSE "C02", "open_failed", e, [res |-> e.res, dir |-> e.dir])
   ELSE
   LET o == e.obs
-      m1 == [m EXCEPT !.open = TRUE, !.inst = @ + 1, !.cfg = m.pend.args, !.nacc0 = m.nacc, !.unlocked = FALSE,
+      \* (removals are scheduled in memory by the instance that purged: its obligations end with it)
+      m1 == [m EXCEPT !.open = TRUE, !.inst = @ + 1, !.cfg = m.pend.args, !.nacc0 = m.nacc, !.unlocked = FALSE, !.oblig = <<>>,
                       !.wl = Append(@, [label |-> e.wl, inst |-> m.inst + 1, dropped |-> FALSE, acked |-> FALSE]),
                       !.pend = NoPend, !.pre = PreOf(o), !.wactive = FALSE, !.dropAcked = FALSE]
       openc == o.chunks[Len(o.chunks)]
@@ -519,7 +520,11 @@ OpenReturn(m0, e) ==
             ELSE IF m.dropAcked THEN CheckView(m2, e, o, IF m2.rejSeen THEN "C06" ELSE "C02")
             ELSE IF o.esr = "ok" /\ ks # {}
                  THEN LET k == SetMax(ks) IN
-                      [Note(m2, "unflushed_drop", e) EXCEPT !.ref = m.views[k - m.vbase + 1], !.nacc = k,
+                      IF k = m.nacc
+                      THEN \* nothing was lost (everything journalled had been handed over and written): the
+                           \* bookkeeping of the journal stays valid
+                           Note(m2, "unflushed_drop", e)
+                      ELSE [Note(m2, "unflushed_drop", e) EXCEPT !.ref = m.views[k - m.vbase + 1], !.nacc = k,
                              !.views = SubSeq(@, 1, k - m.vbase + 1), !.jr = <<>>, !.loc = <<>>, !.sizeok = FALSE,
                              !.obsolete = <<>>, !.oblig = <<>>]
                  ELSE [Note(m2, "unflushed_drop_unexplained", e) EXCEPT !.tainted = TRUE]
